@@ -118,8 +118,21 @@ def model_eval_path():
     return p
 
 
+def _big_stack():
+    # the extracted code recurses as deep as its lists are long (no tail calls in Gallina-shaped code)
+    import resource
+    try:
+        resource.setrlimit(resource.RLIMIT_STACK, (resource.RLIM_INFINITY, resource.RLIM_INFINITY))
+    except (ValueError, OSError):
+        try:
+            soft, hard = resource.getrlimit(resource.RLIMIT_STACK)
+            resource.setrlimit(resource.RLIMIT_STACK, (hard, hard))
+        except (ValueError, OSError):
+            pass
+
+
 def model_eval(text, timeout=600):
-    r = sh([model_eval_path()], input=text, timeout=timeout)
+    r = sh([model_eval_path()], input=text, timeout=timeout, preexec_fn=_big_stack)
     if r.returncode != 0:
         raise RuntimeError('model_eval failed: ' + r.stderr[-2000:])
     return r.stdout.splitlines()
